@@ -366,9 +366,6 @@ package bigbuff
 //@   cond cond : mutex
 //@   frozen : mutex cond
 
-//@ type Notifier as n
-//@   guard mutex : subscribers
-
 //@ type ChanPubSub as x
 //@   guard pongC : pongN
 //@   cond pongC : pongC
@@ -740,7 +737,32 @@ package bigbuff
 
 //@ func (*Notifier).PublishContext
 //@   props C15
-//@   loop 0 invariant build : len(exitCases) <= 1 && len(failureRefs) == len(failureCases) && all(j, 0, len(failureRefs), 0 <= failureRefs[j] && failureRefs[j] < len(successCases)) && all(j, 0, len(failureRefs) - 1, failureRefs[j] < failureRefs[j+1]) && heldR(n.mutex)
-//@   loop 1 invariant main : len(exitCases) <= 1 && len(failureRefs) == len(failureCases) && all(j, 0, len(failureRefs), 0 <= failureRefs[j] && failureRefs[j] < len(successCases)) && all(j, 0, len(failureRefs) - 1, failureRefs[j] < failureRefs[j+1]) && heldR(n.mutex)
+//@   at-call builtin.append#3 eligible : keySubscriber.ctx == nil || lasterr(keySubscriber.ctx) == nil
+//@   at-call builtin.append#3 accepts : rv_valid(arg1[0].Chan) || true
+//@   at-call reflect.Select#0 readlocked : heldR(n.mutex)
+//@   loop 0 invariant build : len(exitCases) <= 1 && len(failureRefs) == len(failureCases) && all(j, 0, len(failureRefs), 0 <= failureRefs[j] && failureRefs[j] < len(successCases)) && all(j, 0, len(failureRefs), all(k, j + 1, len(failureRefs), failureRefs[j] < failureRefs[k])) && heldR(n.mutex)
+//@   loop 1 invariant main : len(exitCases) <= 1 && len(failureRefs) == len(failureCases) && all(j, 0, len(failureRefs), 0 <= failureRefs[j] && failureRefs[j] < len(successCases)) && all(j, 0, len(failureRefs), all(k, j + 1, len(failureRefs), failureRefs[j] < failureRefs[k])) && heldR(n.mutex)
 //@   loop 2 invariant search : failureIndex == -1 && 0 <= successIndex && successIndex < len(successCases) && all(j, 0, rangeindex + 1, failureRefs[j] != successIndex)
+//@   loop 3 invariant shape : all(j, 0, len(failureRefs), 0 <= failureRefs[j] && failureRefs[j] < len(successCases)) && all(j, 0, len(failureRefs), all(k, j + 1, len(failureRefs), failureRefs[j] <= failureRefs[k]))
 //@   loop 3 invariant rebase : -1 <= i__0 && i__0 < len(failureRefs) && len(failureRefs) == len(atentry(3, failureRefs)) && all(j, i__0 + 1, len(failureRefs), atentry(3, failureRefs)[j] > successIndex && failureRefs[j] == atentry(3, failureRefs)[j] - 1) && all(j, 0, i__0 + 1, failureRefs[j] == atentry(3, failureRefs)[j])
+
+//@ type Notifier as n
+//@   guard mutex : subscribers
+//@   guardmap mutex : subscribers
+//@   inv mutex targets : forall(k, any, forall(p, int, has(n.subscribers, k) && has(n.subscribers[k], p) ==> rv_valid(n.subscribers[k][p].target) && rt_kind(rv_type(n.subscribers[k][p].target)) == 18))
+
+//@ func (*Notifier).SubscribeContext
+//@   props C15
+//@   action mutex
+//@   ensures added : has(n.subscribers, key) && has(n.subscribers[key], rv_pointer(rv_of(target))) && n.subscribers[key][rv_pointer(rv_of(target))].ctx == ctx && n.subscribers[key][rv_pointer(rv_of(target))].target == rv_of(target)
+//@   ensures fresh : !(old(has(n.subscribers, key)) && old(has(n.subscribers[key], rv_pointer(rv_of(target)))))
+//@   ensures-panic outer_unchanged : n.subscribers == old(n.subscribers) && forall(k, any, has(n.subscribers, k) == old(has(n.subscribers, k)) && n.subscribers[k] == old(n.subscribers[k]))
+//@   ensures-panic inner_unchanged : forall(k, any, forall(p, int, has(n.subscribers[k], p) == old(has(n.subscribers[k], p))))
+
+//@ func (*Notifier).Unsubscribe
+//@   props C15
+//@   action mutex
+//@   ensures removed : !(has(n.subscribers, key) && has(n.subscribers[key], rv_pointer(rv_of(target))))
+//@   ensures existed : old(has(n.subscribers, key)) && old(has(n.subscribers[key], rv_pointer(rv_of(target))))
+//@   ensures-panic outer_unchanged : n.subscribers == old(n.subscribers) && forall(k, any, has(n.subscribers, k) == old(has(n.subscribers, k)) && n.subscribers[k] == old(n.subscribers[k]))
+//@   ensures-panic inner_unchanged : forall(k, any, forall(p, int, has(n.subscribers[k], p) == old(has(n.subscribers[k], p))))
